@@ -7,15 +7,16 @@ import core
 from props import answers, rel
 
 THEOREMS = ["InfOCF.C09_systemP", "InfOCF.C09_supraclassical", "InfOCF.C09_RM_Z", "InfOCF.C09_RM_Lex",
-            "InfOCF.C09_consistency_preservation", "InfOCF.C09_direct", "InfOCF.C09_direct_P", "InfOCF.wless_irrefl",
+            "InfOCF.C09_consistency_preservation", "InfOCF.C09_direct", "InfOCF.C09_direct_P", "InfOCF.C09_direct_C", "InfOCF.C09_direct_ext", "InfOCF.C09_systemP_P", "InfOCF.C09_P_is_intersection", "InfOCF.C09_systemP_C", "InfOCF.C09_C_is_intersection", "InfOCF.interEnt_systemP", "InfOCF.wless_irrefl",
             "InfOCF.wless_trans", "InfOCF.RM_modular", "InfOCF.prefEnt_iff_Ent", "InfOCF.REF", "InfOCF.LLE", "InfOCF.RW",
             "InfOCF.AND", "InfOCF.OR", "InfOCF.CUT", "InfOCF.CM", "InfOCF.exists_min_below"]
 RULE = ("random and tie-rich bases (both modes) x postulate instances built from the base's own antecedents/consequents and random "
         "formulas (premises and conclusion asked in one batch) x all operators and back-ends (c-inference strict only); "
         "non-trivial = all premises answered True (or, for RM, the negative premise False); distinct by (base, instance, operator)")
-ASSUMPTIONS = ["System P for p-entailment and c-inference (closure under intersection of preferential relations) is covered by the "
-               "correspondence only; the Lean theorem C09_systemP covers System Z, System W, lexicographic inference in both modes",
-               "direct inference in extended mode is covered by the correspondence only"]
+ASSUMPTIONS = ["System P is proved for Z, W, lex in both modes (C09_systemP), for p-entailment in strict mode (C09_systemP_P, as an intersection of "
+               "preferential relations) and, for satisfiable antecedents, reflexivity / right weakening / And for skeptical c-inference "
+               "(C09_systemP_C); direct inference is proved for all operators in both modes (C09_direct, C09_direct_P, C09_direct_C, "
+               "C09_direct_ext); the remaining c-inference postulates and System P for p-entailment in extended mode are covered by the correspondence only"]
 
 RANKED = ("system-z", "lex_inf")
 
